@@ -17,8 +17,10 @@ tvars == <<vars, l, t0, stuck>>
 PairsToFn(pairs) == [p \in Universe |-> IF \E i \in 1..Len(pairs) : pairs[i][1] = p
                                        THEN pairs[CHOOSE i \in 1..Len(pairs) : pairs[i][1] = p][2] ELSE 0]
 \* the snapshot taken by the hook right after the step
+\* (the OneStop/OneCtx hook fires inside getOneFeedback, before waitCalcTactic empties the tactic: no tactic comparison there)
 Snap(e) == /\ actual' = PairsToFn(e.actual)
-           /\ \A p \in Universe : (\E i \in 1..Len(e.tactic) : e.tactic[i][1] = p) => tactic'[p] = PairsToFn(e.tactic)[p]
+           /\ e.ev \in {"OneStop", "OneCtx"}
+              \/ \A p \in Universe : (\E i \in 1..Len(e.tactic) : e.tactic[i][1] = p) => tactic'[p] = PairsToFn(e.tactic)[p]
            /\ prios' = e.prios
            /\ \A i \in 1..Len(e.prios) : strategic'[e.prios[i]] = PairsToFn(e.strategic)[e.prios[i]]
 
